@@ -286,17 +286,22 @@ impl DBInner {
 
         macro_rules! check_meta {
             ($func:ident) => {{
-                let meta1 = Page::from_buf(&data, 0, self.pagesize).$func();
+                // A meta page with a damaged page type is just as invalid as one with a bad hash.
+                let page1 = Page::from_buf(&data, 0, self.pagesize);
+                let meta1 = page1.$func();
+                let valid1 = page1.is_meta() && meta1.valid();
                 // Double check that we have the right pagesize before we read the second page.
-                if meta1.valid() && meta1.pagesize != self.pagesize {
+                if valid1 && meta1.pagesize != self.pagesize {
                     assert_eq!(
                         meta1.pagesize, self.pagesize,
                         "Invalid pagesize from meta1 {}. Expected {}.",
                         meta1.pagesize, self.pagesize
                     );
                 }
-                let meta2 = Page::from_buf(&data, 1, self.pagesize).$func();
-                match (meta1.valid(), meta2.valid()) {
+                let page2 = Page::from_buf(&data, 1, self.pagesize);
+                let meta2 = page2.$func();
+                let valid2 = page2.is_meta() && meta2.valid();
+                match (valid1, valid2) {
                     (true, true) => {
                         assert_eq!(
                             meta1.pagesize, self.pagesize,
